@@ -78,4 +78,12 @@ theorem capture_source_never_faults (s : SxVerif.CaptureSource.Sys) (h : SxVerif
 theorem capture_source_closed_stays {s t : SxVerif.CaptureSource.Sys} (hs : SxVerif.CaptureSource.Step s t)
     (hc : s.closed = true) : t.closed = true := SxVerif.CaptureSource.closed_mono hs hc
 
+
+/-- (T) the filter is applied to EVERY frame the processors see — also to the frames that reached the capture socket
+    between its creation and the moment the filter was attached (at the start of the scan and of every port chunk; a
+    SYN+ACK of any other host on the link arriving in that window was reported as an open port: D30):
+    `afpacket.Source.ReadPacketData` runs the program that `SetBPFFilter` attached on each frame once more, in user
+    space, and skips what it rejects.  `C03_wire` models exactly this: filter, then processor, for every frame. -/
+theorem capture_filter_applied_to_every_frame : SxVerif.Generated.userSpaceFilter = true := by decide
+
 end SxVerif.C06
